@@ -717,7 +717,51 @@ TRACE_FIELDS = ['wire', 'accepted contexts (association)', 'accepted contexts (p
                 'socket held', 'socket closed']
 
 
+ARRIVED = (0, 1, 5, 6, 7, 100)
+
+
+@cond(bounds='the accept loop of the serving entity (the ONE thread that admits every new association: what socketserver runs per '
+             'connection before the handler thread exists - verify_request): a peer has connected and k octets of its '
+             'A-ASSOCIATE-RQ have arrived so far, k from {0, 1, 5, 6, 7, 100} or all of it (symbolic selector), first '
+             'octet symbolic; then it stays silent: the connection is admitted without the accept thread reading from it, '
+             'blocking on it, writing to it or changing its time-out - a slow or silent peer must not delay the next '
+             'association; the octets are all still there for the association\'s own provider', timeout=120)
+def accept_loop_never_waits(sel: int, first: int) -> bool:
+    """
+    pre: 0 <= sel <= 6 and 0 <= first <= 255
+    post: _
+    """
+    from vt import sim
+    from vt.harness import live as L
+    from vt.harness import prov as P
+    rq = P.get_corpus()['acc_echo_release'][1][0][1]
+    k = (list(ARRIVED) + [len(rq)])[pick(sel, 0, 6)]
+    ae = object.__new__(applicationentity.AE)
+    applicationentity.AEBase.__init__(ae, ['1.2.840.10008.1.2'], 16384)
+    ae.add_scp(sopclass.verification_scp)
+    sock = L.StepSocket()
+    arrived = bytes([first]) + rq[1:k] if k else b''
+    if arrived:
+        sock.inbox.append(arrived)
+    outcome = None
+    try:
+        outcome = ae.verify_request(sock, ('peer', 104))
+    except api.Hang as h:
+        outcome = 'blocked: %s' % (h,)
+    except Exception as e:                                   # noqa
+        outcome = 'raised %s' % type(e).__name__
+    left = b''.join(sock.inbox)
+    ok = outcome is True and sock.blocked == 0 and sock.timeout is None and not sock.sent and not sock.closed \
+        and left == arrived
+    accept_loop_never_waits.last = (k, outcome, sock.blocked, sock.timeout, len(left))
+    deep(ok and k == 5 and first == 1)
+    return ok
+
+
 def explain(cname, args, famv):
+    if cname == 'accept_loop_never_waits':
+        accept_loop_never_waits(**args)
+        return 'k=%d octets arrived: verify_request -> %r, accept thread blocked %r s, socket time-out left at %r, %d octets left to read' % accept_loop_never_waits.last
     if cname == 'ids_under_preemption':
         ids1, ids2 = _preempted_ids(args['j'], args['k'], args['m'], 2)
         return 'T1 suspended in call %d after %d instructions while T2 made %d calls: T1 got %r, T2 got %r' % (
